@@ -1622,16 +1622,26 @@ def c_dm_default(m, st, f, a):
 def c_dm_get(m, st, f, a):
     _sched(m, st, 'dm_get', a[0])
     dm = _dm(a[0]); i = _dm_find(m, st, dm, a[1])
-    if i is None: return none()
     h = m.hooks.get('dm_guard')
+    if i is None:
+        if h:
+            h(m, st, 'read', a[0], None)
+            from .threads import dm_release
+            dm_release(st, a[0], 'read')
+        return none()
     if h: h(m, st, 'read', a[0], dm.entries[i][1])
-    return some(Ref(dm.entries[i][1], (), meta=('dmref', 'read')))
+    return some(Ref(dm.entries[i][1], (), meta=('dmref', 'read', a[0])))
 
 
 @contract(r'^DashMap::<.*>::insert$', 2)
 def c_dm_insert(m, st, f, a):
     _sched(m, st, 'dm_insert', a[0])
     dm = _dm(a[0]); i = _dm_find(m, st, dm, a[1])
+    hg = m.hooks.get('dm_guard')
+    if hg:
+        hg(m, st, 'write', a[0], None)
+        from .threads import dm_release
+        dm_release(st, a[0], 'write')
     if i is None:
         dm.entries.append((copy_val(sv(a[1])) if isinstance(a[1], Ref) else a[1], Cell(a[2], tag='dmval'))); return none()
     old = dm.entries[i][1]
@@ -1657,7 +1667,9 @@ def c_dm_entry(m, st, f, a):
 
 @contract(r'^(dashmap::)?(mapref::entry::)?OccupiedEntry::<.*>::(get|get_mut|into_ref)$', 2)
 def c_dm_occ_get(m, st, f, a):
-    e = sv(a[0]); return e.f[1]
+    e = sv(a[0])
+    st.extra.setdefault('handed', set()).add(e.f[1].cell.id)      # a reference into the map leaves the entry API
+    return e.f[1]
 
 
 @contract(r'^(dashmap::)?(mapref::entry::)?VacantEntry::<.*>::insert$', 2)
@@ -1669,7 +1681,7 @@ def c_dm_vac_insert(m, st, f, a):
     if i is None: dm.entries.append((e.f[1], c))
     else:
         old = dm.entries[i][1]; dm.entries[i] = (dm.entries[i][0], c); old.freed = True
-    return Ref(c, (), meta=('dmref', 'write'))
+    return Ref(c, (), meta=('dmref', 'write', e.f[0]))
 
 
 @contract(r'^<(dashmap::)?mapref::(one::Ref(Mut)?|entry::\w+)<.*> as Deref(Mut)?>::deref(_mut)?$', 2)
@@ -1725,3 +1737,23 @@ def c_hasher_finish(m, st, f, a):
     if v is None:
         v = z3.BitVec('fxhash_%d' % len(_finish_memo), 64); _finish_memo[key] = v
     return IntV(v, 'u64')
+
+
+@contract(r'^(dashmap::)?(mapref::entry::)?Entry::<.*>::or_insert$', 2)
+def c_dm_entry_or_insert(m, st, f, a):
+    e = a[0]; k = disc_of(m, st, e)
+    ent = e.payload[k].f[0]
+    if k == 0:
+        return Ref(sv(ent).f[1].cell, (), meta=('dmref', 'write', ent.f[0]))
+    _sched(m, st, 'dm_vacant_insert', ent.f[0])
+    dm = _dm(ent.f[0]); c = Cell(a[1], tag='dmval')
+    i = _dm_find(m, st, dm, ent.f[1])
+    if i is None: dm.entries.append((ent.f[1], c))
+    else:
+        old = dm.entries[i][1]; dm.entries[i] = (dm.entries[i][0], c); old.freed = True
+    return Ref(c, (), meta=('dmref', 'write', ent.f[0]))
+
+
+@contract(r'^(dashmap::)?mapref::one::Ref(Mut)?::<.*>::(value|value_mut)$', 2)
+def c_dm_ref_value(m, st, f, a):
+    return deref(a[0])
